@@ -23,12 +23,19 @@ def run(ctx):
         for (a, sa, sb) in payload[0]:
             key = '%s:%s-vs-%s' % (a, LABEL.get(sa, sa), LABEL.get(sb, sb))
             seen.setdefault(key, []).append(e)
+    full_again = [None]
     for key, evs in sorted(seen.items()):
         e = evs[0]
         # re-execute that object in a fresh process
         d2 = vlib.drive(ctx, exe, 'pairs', sub='confirm-' + str(len(ctx.violations) + len(ctx.known_hits)), extra=['-only', e['obj']], env={'VERIF_EXPORT': exp})
         rj2, l2 = vlib.tlc_trace(ctx, 'Trace_Pairs', os.path.join(d2, 'pairs.ndjson'), shards=1)
         again = [p for (_, pl) in rj2 for p in pl[0] if '%s:%s-vs-%s' % (p[0], LABEL.get(p[1], p[1]), LABEL.get(p[2], p[2])) == key]
+        if not again:
+            # the whole sweep once more (an input family that cannot be asked for by itself): the real code doing it twice confirms
+            if full_again[0] is None:
+                d3 = vlib.drive(ctx, exe, 'pairs', sub='confirm-full', env={'VERIF_EXPORT': exp})
+                full_again[0] = vlib.tlc_trace(ctx, 'Trace_Pairs', os.path.join(d3, 'pairs.ndjson'), shards=8)[0]
+            again = [p for (_, pl) in full_again[0] for p in pl[0] if '%s:%s-vs-%s' % (p[0], LABEL.get(p[1], p[1]), LABEL.get(p[2], p[2])) == key]
         if not again:
             ctx.notes.append('unreproduced: %s on %s' % (key, e['obj']))
             continue
